@@ -137,15 +137,23 @@ func TestC11(t *testing.T) {
 			var l ipld.Link
 			var sz uint64
 			var err error
+			ls := st.LinkSystem(false)
+			how := ""
+			if fc.Len%3 == 1 {
+				// encoders that emit a block in several Write calls
+				ls = store.ChunkedEncoders(ls, 1+fc.Len%7*13)
+				how = " (encoder writing in pieces)"
+				c.Count("builds_with_piecewise_encoders", 1)
+			}
 			withWidth(fc.Width, func() {
-				l, sz, err = builder.BuildUnixFSFile(bytes.NewReader(content), fc.Chunker, st.LinkSystem(false))
+				l, sz, err = builder.BuildUnixFSFile(bytes.NewReader(content), fc.Chunker, ls)
 			})
 			if err != nil {
 				c.Violation("C11|build-error", "%v", err)
 				return
 			}
 			root := linkCid(l)
-			links, shared := checkSizes(c, st, root, sz, fmt.Sprintf("file w%d %s %d bytes", fc.Width, fc.Chunker, fc.Len))
+			links, shared := checkSizes(c, st, root, sz, fmt.Sprintf("file w%d %s %d bytes%s", fc.Width, fc.Chunker, fc.Len, how))
 			depth, spine, _ := shapeOf(walkerFor(st), root)
 			c.Max("max_depth", int64(depth))
 			c.Sig(fmt.Sprintf("file|w%d|d%d|spine%v|shared=%v", fc.Width, depth, spine, shared), links >= 1)
@@ -221,7 +229,7 @@ func TestC11(t *testing.T) {
 			st := store.New()
 			names := gen.Names(c.Rand(), gen.FamMixed, 3*f+7)
 			entries, _, _ := childEntries(st, names)
-			l, sz, err := builder.BuildUnixFSShardedDirectory(f, multihash.MURMUR3X64_64, entries, st.LinkSystem(false))
+			l, sz, err := builder.BuildUnixFSShardedDirectory(f, multihash.MURMUR3X64_64, entries, store.ChunkedEncoders(st.LinkSystem(false), 50))
 			if err != nil {
 				c.Violation("C11|build-error", "%v", err)
 				return
